@@ -8,6 +8,7 @@ from __future__ import annotations
 
 import ast
 import copy
+import os
 
 import z3
 
@@ -143,6 +144,8 @@ class Interp:
         self.fn = fn
         self.dropped.extend(f"{contract['qualname']}: {d}" for d in fn.dropped)
         contract['_sha'] = fn.sha()
+        if contract.get('function_symbol'):
+            self.check_purity(fn, contract)
         loops = frontend.loops_of(fn.node)
         self.loop_ord = {id(n): i + 1 for i, n in enumerate(loops)}
         declared = set((contract.get('loops') or {}).keys())
@@ -173,18 +176,38 @@ class Interp:
             self.check_ensures(s, res, contract)
         return self.obligations
 
+    def check_purity(self, fn, contract):
+        """Syntactic frame check behind `function_symbol`: no global statement, no RNG, no clock, no file access."""
+        bad = []
+        for n in ast.walk(fn.node):
+            if isinstance(n, ast.Global):
+                bad.append('global ' + ','.join(n.names))
+            if isinstance(n, ast.Attribute):
+                d = self.dotted(n)
+                if d and (d.startswith(('random.', 'np.random.', 'numpy.random.', 'time.', 'os.')) or d in ('random', 'time')):
+                    bad.append(d)
+            if isinstance(n, ast.Call) and isinstance(n.func, ast.Name) and n.func.id in ('open', 'input', 'timer'):
+                bad.append(n.func.id)
+        name = self.oname('frame.pure')
+        self.obligations.append(Obligation(name, [], z3.BoolVal(not bad), text='reads only parameters: no globals/RNG/clock/files; found ' + repr(bad)))
+
     def check_ensures(self, st, res, contract):
         res = self.coerce_result(res, contract.get('returns'))
         st.env['result'] = res
         for gname, local in (contract.get('ghost_bind') or {}).items():
             st.env[gname] = self.spec(st, local, raw=True)
+        for gname, ks in (contract.get('ghost_out') or {}).items():
+            if gname not in st.env:
+                # ghost output not produced on this path: arbitrary
+                st.env[gname] = self.make_param(gname, ks, st)
         pathtag = ''.join(st.trail)
         self.cover(st, 'exit' + (f'[{pathtag}]' if pathtag else ''))
         for label, expr in contract.get('ensures', []):
             goal = self.spec(st, expr)
             self.oblige(st, f'ensures.{label}', goal, text=expr, unique=True)
-        if contract.get('canary'):
-            pass
+        if os.environ.get('PYVC_CANARY'):
+            # self-test: `False` at every exit must NOT be provable (else the path's assumptions are contradictory)
+            self.oblige(st, 'canary.exit', z3.BoolVal(False), text='canary (must not be provable)')
 
     def coerce_result(self, res, rk):
         """Give kind-less empty containers (`[]`, `{}`) the element kind declared by the contract."""
@@ -293,6 +316,13 @@ class Interp:
                 if sm is not None:
                     nxt.extend(self.exec_summarized(s, x, sm))
                     continue
+                ab = None
+                if self.cur.get('abstract') and not isinstance(s, (ast.For, ast.While, ast.If)):
+                    txt0 = self.src(s)
+                    ab = next((v for a, v in self.cur['abstract'].items() if txt0.startswith(a)), None)
+                if ab is not None:
+                    nxt.append(self.exec_abstract(s, x, ab))
+                    continue
                 for y, sig in self.exec_stmt(s, x):
                     if sig is None:
                         if anchors and not isinstance(s, (ast.For, ast.While, ast.If)):
@@ -307,6 +337,24 @@ class Interp:
             if not live:
                 break
         return [(x, None) for x in live] + done
+
+    def exec_abstract(self, s, st, ab):
+        """Assumed statement-level contract (trusted, listed in the evidence): the statement is NOT executed; the
+        variable it assigns gets a fresh value of the declared kind constrained only by the stated facts."""
+        names = set()
+        if isinstance(s, ast.Assign):
+            for t in s.targets:
+                self._target_names(t, names)
+        if names != {ab['var']}:
+            raise EngineError(f"abstract statement must assign exactly `{ab['var']}`: {self.src(s)[:60]}")
+        st.env[ab['var']] = self.make_param(ab['var'], ab['kind'], st)
+        for label, e in ab.get('facts', []):
+            self.assume(st, self.spec(st, e))
+        note = f"{self.cur['qualname']}: ASSUMED contract of statement `{self.src(s)[:70]}`: " + '; '.join(e for _, e in ab.get('facts', []))
+        if note not in self.dropped:
+            self.dropped.append(note)
+        self.trusted.add('statement:' + self.src(s)[:50])
+        return st
 
     def exec_summarized(self, s, st, sm):
         """Statement-level contract: run the statement, prove the listed facts about `var`, then forget how the
@@ -520,7 +568,7 @@ class Interp:
                     if cn is not None:
                         for m in cn.get('modifies', []):
                             if m.startswith('param:'):
-                                idx = list(cn['params']).index(m[6:])
+                                idx = list(cn['params']).index(m[6:].split('.')[0])
                                 if idx < len(n.args):
                                     conts.append(n.args[idx])
                             else:
@@ -764,7 +812,22 @@ class Interp:
         return outs
 
     # ------------------------------------------------------------------ assignment
+    def typed_empty(self, v, ks):
+        """`[]`, `{}`, `set()`, `Counter()` bound to a local whose kind the contract declares (local_kinds)."""
+        k = parse_kind(ks)
+        if isinstance(v, VDict) and v.kk == 'unknown' and isinstance(k, tuple) and k[0] in ('dict', 'counter'):
+            kk, vk = (k[1], 'int') if k[0] == 'counter' else (k[1], k[2])
+            return VDict(kk, vk, z3.K(sort_of(kk), z3.BoolVal(False)), z3.K(sort_of(kk), to_term(fresh_value(vk, 'dflt'), vk)),
+                         z3.IntVal(0), default=v.default, flavor=v.flavor)
+        if isinstance(v, VSeq) and v.arr is None and isinstance(k, tuple) and k[0] == 'list':
+            return VSeq(k[1], z3.IntVal(0), z3.K(z3.IntSort(), to_term(fresh_value(k[1], 'dflt'), k[1])), flavor='list')
+        if isinstance(v, VSet) and v.ek == 'unknown' and isinstance(k, tuple) and k[0] == 'set':
+            return VSet(k[1], z3.K(sort_of(k[1]), z3.BoolVal(False)), z3.IntVal(0))
+        return v
+
     def assign(self, t, v, st):
+        if isinstance(t, ast.Name) and t.id in (self.cur.get('local_kinds') or {}):
+            v = self.typed_empty(v, self.cur['local_kinds'][t.id])
         if isinstance(t, ast.Name):
             if t.id in st.glob and t.id not in st.env and self._is_global_decl(t.id):
                 st.glob[t.id] = v
@@ -963,6 +1026,9 @@ class Interp:
         c = self.lookup_contract(e.id)
         if c is not None:
             return VFunc(e.id, lambda I, st_, args, kwargs, c=c: I.call_contract(c, args, kwargs, st_))
+        ctor = (self.cur.get('constructors') or {}).get(e.id)
+        if ctor is not None:
+            return VFunc(e.id, lambda I, st_, args, kwargs, ctor=ctor, nm=e.id: VObj(nm, dict(zip(ctor, args), **kwargs)))
         mc = self.module_constant(e.id)
         if mc is not None:
             return mc
@@ -1490,6 +1556,10 @@ class Interp:
         if isinstance(base, VObj):
             if e.attr in base.fields:
                 return base.fields[e.attr]
+            om = self.stubs.obj_method(base.cls, e.attr)
+            if om is not None:
+                return VFunc(f'{base.cls}.{e.attr}', lambda I, st_, args, kwargs, om=om, base=base: om(I, st_, base, *args, **kwargs),
+                             self_value=base)
             c = self.callee_contract(e)
             if c is not None:
                 return VFunc(e.attr, lambda I, st_, args, kwargs, c=c, base=base: I.call_contract(c, [base] + list(args), kwargs, st_))
@@ -1549,9 +1619,14 @@ class Interp:
 
     # ------------------------------------------------------------------ calls to functions under contract
     def call_contract(self, c, args, kwargs, st):
-        fn = frontend.load_function(c['module'], c['qualname'])
-        names = [a.arg for a in fn.node.args.args]
-        defaults = fn.node.args.defaults
+        if c.get('external'):
+            # assumed contract of a function outside the repository / outside the subset (trusted, listed)
+            names, defaults = list(c['param_names']), []
+            self.trusted.add('assumed contract: ' + c['key'])
+        else:
+            fn = frontend.load_function(c['module'], c['qualname'])
+            names = [a.arg for a in fn.node.args.args]
+            defaults = fn.node.args.defaults
         bound = dict(zip(names, args))
         bound.update(kwargs)
         for p, d in zip(names[len(names) - len(defaults):], defaults):
@@ -1569,16 +1644,39 @@ class Interp:
         for g, ks in (c.get('globals') or {}).items():
             if g not in st.glob:
                 st.glob[g] = self.make_param(g, ks, st)
+        # generic element kinds of the callee's contract are instantiated from the actual arguments
+        saved_subst = dict(sym.KIND_SUBST)
+        for g, pname in (c.get('generics') or {}).items():
+            actual = bound.get(pname)
+            if isinstance(actual, VSeq) and actual.ek != 'unknown':
+                sym.KIND_SUBST[g] = actual.ek
+        try:
+            return self._call_contract_body(c, names, bound, sub, st)
+        finally:
+            sym.KIND_SUBST.clear()
+            sym.KIND_SUBST.update(saved_subst)
+
+    def _call_contract_body(self, c, names, bound, sub, st):
         label = self._uniq(f"call.{c['qualname']}")
         for lab, expr in c.get('requires', []):
             goal = self.spec(sub, expr, contract=c)
             self.oblige(st, f'{label}.pre.{lab}', goal, text=expr, unique=False)
+        if c.get('function_symbol') and c.get('pure') == '@function_symbol':
+            return self.apply_function_symbol(c, names, sub, st)
         if c.get('pure'):
             # pure function whose contract gives its value as a spec term (ensures `result == <pure>` is part of
             # the callee's own obligations): usable under binders (comprehensions, quantifiers)
             return self.spec(sub, c['pure'], raw=True)
         sub.old = copy.deepcopy({**sub.glob, **sub.env})
         for m in c.get('modifies', []):
+            if m.startswith('param:') and '.' in m:
+                # field-granular frame: only obj.field may change
+                pname, fld = m[6:].split('.', 1)
+                obj = sub.env.get(pname)
+                if not isinstance(obj, VObj) or fld not in obj.fields:
+                    raise EngineError(f"modifies `{m}` of {c['qualname']} not bound")
+                obj.fields[fld] = self.fresh_like(obj.fields[fld], f'{label}.{fld}', st)
+                continue
             tgt = sub.env.get(m[6:]) if m.startswith('param:') else st.glob.get(m)
             if tgt is None:
                 raise EngineError(f"modifies `{m}` of {c['qualname']} not bound")
@@ -1592,10 +1690,47 @@ class Interp:
             sub.env[gname] = self.make_param(f'{label}.{gname}', ks, st)
         for lab, expr in c.get('ensures', []):
             self.assume(st, self.spec(sub, expr, contract=c))
+        fs = c.get('function_symbol')
+        if fs:
+            self.assume(st, self.equal(res, self.apply_function_symbol(c, names, sub, st), st))
         # ghost outputs of the callee become caller-side ghosts (names chosen by the caller's contract)
         for gname, cname in ((self.cur.get('call_ghosts') or {}).get(c['key']) or {}).items():
             st.env[cname] = sub.env[gname]
         return res
+
+    def apply_function_symbol(self, c, names, sub, st):
+        """result == F(args): the callee is a deterministic function of (the parts it reads of) its arguments.
+        Justification: purity is checked syntactically when the callee itself is verified (no globals, no RNG, no
+        clock); listed as an assumption otherwise."""
+        terms = []
+        for n in c.get('function_args') or names:
+            v = self.spec(sub, n, raw=True) if not n.isidentifier() else sub.env[n]
+            terms.extend(self.flatten_terms(v))
+        rk = c.get('returns')
+        rks = list(rk) if isinstance(rk, (list, tuple)) else [rk]
+        outs = []
+        for j, k_ in enumerate(rks):
+            kk = parse_kind(k_)
+            if isinstance(kk, tuple) and kk[0] in ('list', 'array'):
+                raise EngineError('function_symbol with sequence result')
+            F = z3.Function(f"{c['function_symbol']}{'' if len(rks) == 1 else j}", *[t.sort() for t in terms], sort_of(kk))
+            outs.append(from_term(F(*terms), kk))
+        return outs[0] if not isinstance(rk, (list, tuple)) else VTuple(outs)
+
+    def flatten_terms(self, v):
+        if isinstance(v, (VInt, VReal, VBool, VStr)):
+            return [v.t]
+        if isinstance(v, VSeq):
+            return [v.length, v.arr] if v.arr is not None else [v.length]
+        if isinstance(v, VTuple):
+            return [t for x in v.items for t in self.flatten_terms(x)]
+        if isinstance(v, VOpaque) and v.t is not None:
+            return [v.t]
+        if isinstance(v, VObj):
+            return [t for f in sorted(v.fields) for t in self.flatten_terms(v.fields[f])]
+        if isinstance(v, VNone):
+            return []
+        raise EngineError(f'cannot pass {v!r} to a function symbol')
 
     def make_result(self, c, label, st):
         rk = c.get('returns')
@@ -1671,7 +1806,7 @@ class Interp:
             return from_term(base.val[kt], base.vk)
         if isinstance(base, VStr):
             return self.stubs.str_subscript(self, st, base, sl, txt)
-        r = self.stubs.subscript(self, st, base, sl, txt)
+        r = self.stubs.subscript(self, st, base, self.eval(sl, st) if not isinstance(sl, ast.Slice) else sl, txt)
         if r is not None:
             return r
         raise EngineError(f'subscript on {base!r} (`{txt}`)')
